@@ -141,6 +141,14 @@ def check_concurrent(case):
         H.require_clean(r, '%s decompress, stream %d of %d concurrent ones' % (codec, k, len(rd)), **ctx)
         if b''.join(r.items) != b''.join(originals[k]):
             raise Violation('stream %d decompressed concurrently with others differs from its input' % k, **ctx)
+    for n, r in enumerate(drive.two_subscribers(comps[0], CODECS[codec].decompress())):
+        H.require_clean(r, 'subscriber %d of one piped decompress observable' % n, **ctx)
+        if b''.join(r.items) != b''.join(originals[0]):
+            raise Violation('subscriber %d of one piped decompress observable differs from the input' % n, **ctx)
+    for n, r in enumerate(drive.two_subscribers(originals[0], CODECS[codec].compress())):
+        H.require_clean(r, 'subscriber %d of one piped compress observable' % n, **ctx)
+        if reference_decompress(codec, b''.join(r.items)) != b''.join(originals[0]):
+            raise Violation('subscriber %d of one piped compress observable produced another stream' % n, **ctx)
     nonempty = sum(1 for o in originals if b''.join(o))
     return {'nontrivial': nonempty >= 2 and len(case['sched']) >= 4, 'labels': [codec, 'streams=%d' % len(originals), 'shared-op' if case['shared_op'] else 'own-op']}
 
